@@ -250,7 +250,7 @@ struct Walker {
 		if (g_allocsInLibrary) { std::snprintf(buf, sizeof buf, "the library allocated dynamic memory %lu time(s) during %s (step %u)", (unsigned long) g_allocsInLibrary, what, S.stepNo); S.violation("C11", buf); g_allocsInLibrary = 0; }
 		// C01: configuration invariant through the instance's own answers
 		char why[200];
-		if (!configWellFormed(*in.fsm, expectOn, why, sizeof why)) { std::snprintf(buf, sizeof buf, "after %s (step %u): %s", what, S.stepNo, why); S.violation("C01", buf); }
+		if (!configWellFormed(*in.fsm, expectOn, why, sizeof why)) { std::snprintf(buf, sizeof buf, "after %s (step %u): %s", what, S.stepNo, why); S.violation("C01", buf); if (std::strstr(why, "activeSubState")) S.violation("C13", buf); }
 		if (S.want("C13")) for (int s = 0; s < HV_NS; ++s) if (in.fsm->isPendingEnter((StateID) s) || in.fsm->isPendingExit((StateID) s) || in.fsm->isPendingChange((StateID) s)) { std::snprintf(buf, sizeof buf, "after %s (step %u) a pending query answers true for state %d although nothing is pending", what, S.stepNo, s); S.violation("C13", buf); break; }
 		if (S.want("C13")) for (int s = 0; s < HV_NS; ++s) if (in.fsm->isScheduled((StateID) s) != in.fsm->isResumable((StateID) s)) { S.violation("C13", "isScheduled() and isResumable() disagree"); break; }
 		S.cbChecks += (int) x.cbInvariantChecks; x.cbInvariantChecks = 0;
@@ -414,6 +414,13 @@ void Walker::judgeProcessing(Inst& in, const char* what, const Cfg& before, cons
 	if (x.overflow) { in.model.cfg = readCfg(*in.fsm); in.queued.clear(); in.queuedTags.clear(); return; }
 	std::vector<Round> rs = segmentRounds(x);
 	if (S.want("C04") && S.suppress.empty() && !RNG_BUILTIN && !x.overflow) planTwin(in, rs);
+	// C13: the sub-state reported resumable for a region is the one a subsequent resume of that region activates (none reported: the first)
+	if (S.want("C13") && rs.size() == 1 && !rs[0].cancelled && rs[0].pend.size() == 1 && rs[0].issued.empty() && rs[0].pend[0].type == T_RESUME) {
+		const int d = rs[0].pend[0].dest;
+		if (d >= 0 && d < HV_NS && node(d).kind == COMPO && in.fsm->isActive((StateID) d)) {
+			const int r0 = before.resumable[node(d).compo], expectProng = r0 >= 0 ? r0 : 0, got = (int) in.fsm->activeSubState((StateID) d);
+			st.cls("resume_of_region_judged"); if (r0 >= 0) st.cls("resume_of_region_with_resumable_mark");
+			if (got != expectProng) { std::snprintf(buf, sizeof buf, "resume(%d): sub-state %d of the region was reported resumable before the request (-1: none), but sub-state %d was activated (%s, step %u)", d, r0, got, what, S.stepNo); S.violation("C13", buf); } } }
 	const int limit = HV_SUBST_LIMIT;
 	// requests the script issued before the first round (update/react phases)
 	std::vector<Req> pre; std::vector<uint32_t> preTags;
@@ -1261,8 +1268,9 @@ static std::string hv_render(const hv::Bytes& b) {
 // op-kind weights per property profile
 static std::vector<int> profileWeights(const std::string& p) {
 	//                      upd reA reB qry req bat suc fai pAp pCl rst e/x s/l rpl log swi qB  pRm c+d chu
-	if (p == "C04" || p == "C13" || p == "C14")
+	if (p == "C04" || p == "C13")
 		return std::vector<int>{ 6,  3,  0,  1, 12,  3,  0,  0,  0,  0,  1,  1,  0,  0,  1,  0,  0,  0,  0,  0};
+	if (p == "C14") return std::vector<int>{ 8,  3,  0,  1, 12,  3,  1,  0,  4,  0,  1,  2,  0,  0,  1,  0,  0,  0,  0,  0};   // payloads also travel through plan tasks and activations
 	if (p == "C09") return std::vector<int>{ 6,  3,  0,  1, 12,  3,  0,  0,  0,  0,  1,  4,  0,  0,  1,  0,  0,  0,  0,  0};
 	if (p == "C02") return std::vector<int>{ 6,  2,  0,  1, 12,  5,  0,  0,  0,  0,  2,  1,  0,  0,  1,  0,  0,  0,  0,  0};
 	if (p == "C11") return std::vector<int>{18,  9,  3,  3, 30, 18,  3,  3,  9,  3,  3,  3,  3,  6,  3,  3,  3,  3,  3,  1};
@@ -1283,6 +1291,7 @@ static rc::Gen<hv::Bytes> hv_gen() {
 	if (p == "C05") aw =         {10,  2,  0,  1,  1,  8,  0,  0,  0,  0,  0,  0};
 	if (p == "C11") aw =         { 8,  8,  3,  2,  2,  1,  3,  1,  6,  1,  1,  1};
 	if (p == "C04") aw =         { 6,  8,  6,  0,  0,  0,  0,  0,  1,  0,  0,  0};
+	if (p == "C14") aw =         {10,  8,  3,  4,  0,  1,  3,  0,  1,  1,  0,  0};
 	const bool guardBias = p == "C04"; // three of five script entries address guards (method index 0/1), so that rounds with substitutions and vetoes are frequent
 	auto entry = gen::map(gen::tuple(hv::byte(), hv::byte(), hv::weighted(aw), hv::byte(), hv::byte(), hv::byte()),
 		[guardBias](const std::tuple<uint8_t, uint8_t, int, uint8_t, uint8_t, uint8_t>& t) { uint8_t m = std::get<1>(t); if (guardBias && (m % 5) < 3) m = (uint8_t) ((m & 0xC0) | ((m >> 3) & 1));
